@@ -341,6 +341,8 @@ def random_spec(rng, *, max_side=6, kmax=40, for_solver=False, frames=1, min_rid
             spec["min_ridge"] = min_ridge
         elif rng.random() < 0.15:
             spec["lattice"] = "quad"   # four-fold junctions
+            if rng.random() < 0.25:
+                spec["jitter"] = 0.0   # perfectly regular: exactly collinear interfaces through the junctions
         n = nx * ny
         # sub-tissue mask
         mode = rng.choice(["full", "full", "grow", "grow", "holes", "bridge"]) if not for_solver else \
